@@ -33,7 +33,22 @@ def shape_bytes(code, text, shape):
         'cr_in': d + b' q\r' + t + b'\r\n',
         'cr_code': d + b' q\r' + d + b' ' + t + b'\r\n',
         'other': d + b'-x\r\n299 w\r\n' + d + b' ' + t + b'\r\n',
+        # (driver-only shapes: not in the TLA+ Shapes vocabulary, used by the systematic enumerators)
+        # characters that str.splitlines() treats as line ends, inside a line of a multi-line reply and followed by
+        # what would look like a final line: the only line ends of the control connection are CR LF / LF
+        'multi_ff': d + b'-x\x0c226 y\r\n' + d + b' ' + t + b'\r\n',
+        'multi_vt': d + b'-x\x0b226 y\r\n' + d + b' ' + t + b'\r\n',
+        'multi_fs': d + b'-x\x1c226 y\x1d226 z\x1e226 w\r\n' + d + b' ' + t + b'\r\n',
+        'multi_nel': d + b'-x\xc2\x85226 y\r\n' + d + b' ' + t + b'\r\n',
+        'multi_ls': d + b'-x\xe2\x80\xa8226 y\xe2\x80\xa9226 z\r\n' + d + b' ' + t + b'\r\n',
+        'single_ff': d + b' a\x0c226 y\r\n' if False else d + b' ' + t + b'\x0cz\r\n',
+        # a line inside a multi-line reply that starts with three non-ASCII decimal digits and a space
+        'multi_arabic': d + b'-x\r\n' + '\u0662\u0662\u0666 y'.encode('utf-8') + b'\r\n' + d + b' ' + t + b'\r\n',
+        'multi_fullwidth': d + b'-x\r\n' + '\uff12\uff12\uff16 y'.encode('utf-8') + b'\r\n' + d + b' ' + t + b'\r\n',
     }[shape]
+
+
+EXTRA_SHAPES = ['multi_ff', 'multi_vt', 'multi_fs', 'multi_nel', 'multi_ls', 'single_ff', 'multi_arabic', 'multi_fullwidth']
 
 
 # ---------------------------------------------------------------------- TLC -> scenario
@@ -229,6 +244,23 @@ def torn_scenarios():
                     moves = [fin, ['data', 2], ['close']]
                 sc['xfers'] = [{'eager_final': order == 'eager', 'moves': moves}]
                 yield sc
+
+
+def stall_scenarios():
+    """The data connection stalls (the server neither sends the rest nor closes) while the client has a read time-out;
+    the closing reply is already on the control connection, or comes later, or never.  However the client ends the
+    wait, it must not report the transfer complete: the server never ended the data connection."""
+    bases = [({'mode': 'file', 'restart': False, 'user': [], 'pass': [], 'path': [97]}, False),
+             ({'mode': 'listing', 'restart': False, 'user': [117], 'pass': [112], 'path': []}, True)]
+    for sess, fb in bases:
+        for moves, eager in (([['final', list(shape_bytes(226, b'ok', 'single'))], ['data', 1]], True),
+                             ([['data', 1], ['final', list(shape_bytes(226, b'ok', 'single'))]], False),
+                             ([['data', 2]], False),
+                             ([['final', list(shape_bytes(226, b'ok', 'single'))]], True)):
+            sc = happy_scenario(sess, fallback=fb)
+            sc['xfers'] = [{'eager_final': eager, 'moves': moves}]
+            sc['read_timeout'] = 5
+            yield sc
 
 
 def strip_cuts(sc):
